@@ -26,6 +26,10 @@ CORPUS = [  # (cfg, [sources...]) — past crashes and their neighbours; runs fi
     ("-", ["a=[1]; a.push(a); b=[1]; b.push(b); a==b"]), ("-", ["dd={}; dd.x=dd; ee={}; ee.x=ee; dd==ee"]),
     ("-", ["2d6+3d6", "1 +", "(", "2d6"]), ("-", ["[1,2,3].sum()", "[x,2]"]), ("P200", ["1" + "+1" * 150]),
     ("-", ["^st力量-'a'"]), ("-", ["^st力量+[1]"]), ("-", ["[(0-9223372036854775807-1)..9223372036854775807]"]),
+    ("T", ["^st力量-'a'"]), ("T", ["^st力量-0||'abc'"]), ("T", ["^st力量-1 ? 'a' : 'b'"]), ("T", ["^st力量-[1]", "^st力量-null"]), ("T", ["^st力量-=null 敏捷+'a'"]),
+    ("-", ["[-9223372036854775807..2]"]), ("-", ["[2..-9223372036854775807]"]), ("-", ["[-9223372036854775807..9223372036854775807]"]), ("-", ["[9223372036854775807..-2]"]),
+    ("-", ["x=1; i=0; while x { func f() { 1;2;3; break }; i=i+1; if i > 3 { x = 0 } }"]), ("-", ["while 1 { func f() { break } }"]),
+    ("-", ["i=0; while i<3 { i=i+1; func f() { continue }; f() }; i"]), ("-", ["i=0; while i<3 { i=i+1; &c = (1; break) }"]), ("-", ["i=0; while i<3 { i=i+1; &c = i; if c > 1 { break } }; i"]),
     ("-", ["func f(){f()}; f()"]), ("-", ["&c = d; c"]), ("-", ["func f(){ 2d }; f()"]), ("-", ["&c = d劣势; c; c"]), ("-", ["func f(){ d优势 + 3d }; f(); f()"]), ("-", ["&c = c; c"]), ("-", ["toStr(toStr)"]), ("-", ["x = {}; x.__proto__ = x; x.q"]),
 ]
 
@@ -42,7 +46,16 @@ CORPUS += [("-", ["(" * n + "1" + ")" * n]) for n in (50, 500, 3000)]
 CORPUS += [("-", ["[" * n + "1" + "]" * n]) for n in (50, 500)]
 CORPUS += [("-", ["1" + "+1" * n]) for n in (100, 3000, 9000)]
 
-ILL = ["1.5", "'a'", "null", "[1]", "{}", "abs", "-1", "0", "99999999999", "(2d6)", "[]"]
+ILL = ["1.5", "'a'", "null", "[1]", "{}", "abs", "-1", "0", "99999999999", "(2d6)", "[]", "9223372036854775807", "-9223372036854775807",
+       "(0-9223372036854775807-1)", "4611686018427387904", "-4611686018427387905"]
+
+
+CONT = ["{'a':1}", "{'b':1}", "{'a':1,'b':2}", "{'a':2,'c':2}", "{'a':1,'b':2,'c':3}", "{'x':1,'y':2,'z':3}", "[1,2]", "[1,3]", "[[1],{'a':[2]}]", "[[1],{'b':[2]}]",
+        "{'a':{'x':1}}", "{'a':{'y':1}}", "{}", "[]", "{'a':null}", "{'b':null}", "{'a':[1,{'k':2}]}", "{'a':[1,{'j':2}]}"]
+
+
+# every pair of container shapes under equality (same size / different keys, nested differences, ...): one VM per left operand
+CORPUS += [("-", [f"{a} == {b}" for b in CONT] + [f"x={a}; [x] != [{b}]" for b in CONT[:6]]) for a in CONT]
 
 
 def adversarial(r):
@@ -59,6 +72,11 @@ def adversarial(r):
         f"-{t}", f"+{t}", f"{t} & {u}", f"{t} == {u}", f"{t} < {u}", f"func q(z){{z+1}}; q({t}, {u})", f"func q(z){{z+1}}; q()",
         f"&cv = {t} + 1; cv", f"&cv = d({t}); cv.compute()", f"this.w = {t}; this.w", f"^st力量{t}", f"^st力量+{t}", f"^st力量-{t}", f"^st'a b':{t}",
         f"^st力量*{t}:5", f"^st&力量={t}", f"dir({t})", f"typeId({t})", f"repr({t})", f"d{t}", f"{t}d", f"f + {t}", f"{r.randint(1, 30)}d{r.choice([0, 1, 2**31, 2**62, 2**63-1])}",
+        f"{r.choice(CONT)} {r.choice(['==', '!=', '<', '>=', '+', '&&', '??'])} {r.choice(CONT)}", f"x={r.choice(CONT)}; y={r.choice(CONT)}; [x==y, y==x, x!=y, [x]==[y], {{'k':x}}=={{'k':y}}]",
+        f"^st力量-{t} 敏捷-={u}", f"^st力量-{t} ? {u} : 1", f"^st力量-0||{t}", f"^st'a'-{t}, b+{u}",
+        f"i=0; while i<3 {{ i=i+1; func f(z) {{ {r.choice(['break', 'continue', 'if z { break }', 'while 0 {}; continue', '1; break; 2'])} }}; f({t}) }}; i",
+        f"i=0; while i<3 {{ i=i+1; &cv = {r.choice(['(break)', '{t}; break'.replace('{t}', t), 'i'])}; cv }}",
+        f"[{r.choice(['-', ''])}{r.choice([2**63-1, 2**63-2, 2**62, 2**63-513, 2**63-512])}..{r.choice(['-', ''])}{r.choice([0, 1, 2, 511, 512, 2**62, 2**63-1])}]",
     ]
     return r.choice(pats)
 
@@ -78,7 +96,7 @@ def mutate(r, src):
     return bytes(b)
 
 
-CFGS = ["-", "wcfd", "wcfd,m", "wcfd,M", "S", "N", "B", "z", "wcfd,S,N,B,z", "c", "w", "d", "f"]
+CFGS = ["-", "wcfd", "wcfd,m", "wcfd,M", "S", "N", "B", "z", "wcfd,S,N,B,z", "c", "w", "d", "f", "T", "wcfd,T", "T,m"]
 
 
 def main(tier):
